@@ -1136,6 +1136,18 @@ def canonical_func(fi):
         def visit_For(self, n):
             self.generic_visit(n)
             it = n.iter
+            # a loop that only looks for a witness and then leaves for good: `for x in xs: if c(x): <T, ends in raise / return /
+            # exit()>` with T not mentioning x is `if any(c(x) for x in xs): T`
+            if len(n.body) == 1 and not n.orelse and isinstance(n.body[0], ast.If) and not n.body[0].orelse and isinstance(n.target, ast.Name):
+                inner = n.body[0]
+                last = inner.body[-1]
+                leaves = isinstance(last, (ast.Raise, ast.Return)) or (
+                    isinstance(last, ast.Expr) and isinstance(last.value, ast.Call) and (dotted(last.value.func) or '') in ('exit', 'sys.exit', 'quit', 'os._exit'))
+                if leaves and n.target.id not in {x.id for st in inner.body for x in ast.walk(st) if isinstance(x, ast.Name)}:
+                    gen = ast.GeneratorExp(elt=inner.test, generators=[ast.comprehension(target=n.target, iter=n.iter, ifs=[], is_async=0)])
+                    test = ast.Call(func=ast.Name(id='any', ctx=ast.Load()), args=[gen], keywords=[])
+                    new_if = ast.If(test=test, body=inner.body, orelse=[])
+                    return ast.fix_missing_locations(ast.copy_location(new_if, n))
             body_names = [x for st in n.body for x in ast.walk(st) if isinstance(x, ast.Name)]
             # the index of an enumerate that nobody reads: plain iteration
             if isinstance(it, ast.Call) and isinstance(it.func, ast.Name) and it.func.id == 'enumerate' and len(it.args) == 1 and not it.keywords \
@@ -1212,6 +1224,50 @@ def canonical_func(fi):
     return new
 
 
+_RC_MEMO = {}
+
+
+def returns_container(repo, callee, depth):
+    """Every value the function returns is a built-in container (display, comprehension, set()/list()/dict()/sorted(),
+    a set operation on one, a local bound only to such values, a call of a repo function for which the same holds)."""
+    key = callee.qual
+    if key in _RC_MEMO:
+        return _RC_MEMO[key]
+    _RC_MEMO[key] = False
+    node = callee.node
+    assigns = {}
+    for n in walk_shallow(node):
+        if isinstance(n, ast.Assign) and len(n.targets) == 1 and isinstance(n.targets[0], ast.Name):
+            assigns.setdefault(n.targets[0].id, []).append(n.value)
+
+    def is_c(e, d, seen):
+        if isinstance(e, (ast.List, ast.Dict, ast.Set, ast.Tuple, ast.ListComp, ast.SetComp, ast.DictComp)):
+            return True
+        if isinstance(e, ast.Call):
+            fn = dotted(e.func) or ''
+            if fn in ('set', 'list', 'dict', 'tuple', 'sorted', 'frozenset'):
+                return True
+            if isinstance(e.func, ast.Attribute) and e.func.attr in ('intersection', 'union', 'difference', 'symmetric_difference', 'copy', 'split', 'keys', 'values', 'items'):
+                return e.func.attr in ('split',) or is_c(e.func.value, d, seen)
+            q = repo.resolve_dotted(callee.module, fn) if fn else None
+            if q in repo.funcs and d > 0:
+                return returns_container(repo, repo.funcs[q], d - 1)
+            return False
+        if isinstance(e, ast.Name):
+            if e.id in seen:
+                return True          # `s = s.intersection(t)`: decided by the other bindings of s
+            if e.id not in assigns:
+                return False
+            return all(is_c(v, d, seen | {e.id}) for v in assigns[e.id])
+        if isinstance(e, ast.IfExp):
+            return is_c(e.body, d, seen) and is_c(e.orelse, d, seen)
+        return False
+    rets = [n.value for n in walk_shallow(node) if isinstance(n, ast.Return)]
+    ok = bool(rets) and all(r is not None and is_c(r, depth, set()) for r in rets)
+    _RC_MEMO[key] = ok
+    return ok
+
+
 def effects(fi, keep=(), use_semiring=True, helper=None):
     """Canonical effect list of a function."""
     fi = canonical_func(fi)
@@ -1265,6 +1321,25 @@ def effects(fi, keep=(), use_semiring=True, helper=None):
         return semiring(t) if use_semiring else t
     NEG = {'Eq': 'NotEq', 'NotEq': 'Eq', 'Lt': 'GtE', 'GtE': 'Lt', 'Gt': 'LtE', 'LtE': 'Gt', 'Is': 'IsNot', 'IsNot': 'Is', 'In': 'NotIn', 'NotIn': 'In'}
 
+    # names are resolved from the repository function under comparison, for both sides alike
+    repo_ = helper.repo if helper is not None else None
+    mod_ = helper.fi.module if helper is not None else None
+
+    def container_valued(t):
+        if not isinstance(t, tuple) or not t:
+            return False
+        if t[0] in ('list', 'dict', 'set', 'tuple', 'comp'):
+            return True
+        if t[0] == 'call' and isinstance(t[1], tuple) and t[1][0] == 'fn' and isinstance(t[1][1], str):
+            fn = t[1][1]
+            if fn in ('set', 'list', 'dict', 'tuple', 'sorted', 'frozenset'):
+                return True
+            if repo_ is not None:
+                q = repo_.resolve_dotted(mod_, fn)
+                if q in repo_.funcs:
+                    return returns_container(repo_, repo_.funcs[q], 3)
+        return False
+
     def neg_term(t):
         if not isinstance(t, tuple) or not t:
             return None
@@ -1293,6 +1368,9 @@ def effects(fi, keep=(), use_semiring=True, helper=None):
                 t = t[2]
             if t and len(t) == 4 and t[0] == 'call' and t[1] == ('fn', 'len'):
                 t = ('cmp', ('NotEq',), t, ('const', '0'))        # `if len(x):`
+            elif container_valued(t):
+                # truthiness of a built-in container is `len(..) != 0`
+                t = ('cmp', ('NotEq',), ('call', ('fn', 'len'), (t,), ()), ('const', '0'))
             if kind == 'ifnot' and t and t[0] in ('and', 'or'):
                 nt = neg_term(t)                                   # De Morgan: `ifnot (a or b)` is `if (not a and not b)`
                 if nt is not None:
